@@ -51,7 +51,7 @@ ClientInit ==
   [pc |-> "idle", mid |-> "", wmid |-> "", sid |-> "", sgen |-> -1, claims |-> {},
    cst |-> [p \in Parts |-> "none"], nxt |-> [p \in Parts |-> 0], got |-> [p \in Parts |-> 0],
    mk |-> [p \in Parts |-> -1], dirty |-> {}, ctx |-> FALSE, pcancel |-> FALSE, closed |-> "no",
-   calls |-> 0, hb |-> "off", retries |-> 0, trig |-> 0, h |-> NoHandler, ftry |-> 0, ac |-> 0]
+   calls |-> 0, hb |-> "off", retries |-> 0, trig |-> 0, h |-> NoHandler, ftry |-> 0, ac |-> 0, j1 |-> FALSE]
 
 ResetEvent(c) ==
   [ev |-> "reset", initial |-> c.initial, loglen |-> LogLen, logstart |-> 0, auto |-> c.auto,
@@ -65,7 +65,7 @@ Init ==
   /\ cl = [c \in Clients |-> ClientInit]
   /\ fb = FaultBudget
   /\ tb = TrigBudget
-  /\ script = [c \in Clients |-> [start |-> "pre", pre |-> "none", sess |-> <<>>, lf |-> "ok"]]
+  /\ script = [c \in Clients |-> [start |-> "never", pre |-> "none", sess |-> <<>>, lf |-> "ok"]]
   /\ obs = ObsStep(ObsInit, ResetEvent(cfg))
 
 Emitting(evs) == obs' = ObsFold(obs, evs, {})
@@ -75,8 +75,7 @@ Emitting(evs) == obs' = ObsFold(obs, evs, {})
 CurIdx(c) == Len(script[c].sess)
 AppendSess(c, h) ==
   [script EXCEPT ![c].sess = Append(@, [jf |-> <<>>, sf |-> <<>>, cf |-> <<>>, h |-> h,
-                                          trig |-> [kind |-> "none", at |-> "pre"]]),
-                 ![c].start = IF cl[c].calls = 0 /\ co.anySetup THEN "setup" ELSE @]
+                                          trig |-> [kind |-> "none", at |-> "pre"]])]
 RecJ(s, c, k) == IF CurIdx(c) = 0 THEN s ELSE [s EXCEPT ![c].sess[CurIdx(c)].jf = Append(@, k)]
 RecS(s, c, k) == IF CurIdx(c) = 0 THEN s ELSE [s EXCEPT ![c].sess[CurIdx(c)].sf = Append(@, k)]
 RecC(s, c, k) == IF CurIdx(c) = 0 THEN s ELSE [s EXCEPT ![c].sess[CurIdx(c)].cf = Append(@, k)]
@@ -169,10 +168,20 @@ JoinScripted(c) ==
   /\ fb' = fb - 1
   /\ UNCHANGED <<cfg, tb>>
 
+\* how the harness can place a client's first accepted join relative to the other member: in the very first
+\* join round ("pre": the simulated coordinator holds that round for every client started up front), or while the
+\* other member runs its first session ("setup": the driver starts the client at the other's first Setup);
+\* anything else is explored here but not emitted as a scenario
+StartClass(c) ==
+  IF co.gen = 0 THEN "pre"
+  ELSE IF \E d \in Clients \ {c} : cl[d].calls = 1 /\ cl[d].pc \in {"insetup", "run"} THEN "setup"
+  ELSE "other"
+
 JoinGenuine(c) ==
   LET x == cl[c] IN
   /\ x.pc = "join"
-  /\ script' = RecJ(script, c, "ok")
+  /\ script' = IF x.j1 \/ (x.mid # "" /\ x.mid \notin co.mem) THEN RecJ(script, c, "ok")
+                ELSE [RecJ(script, c, "ok") EXCEPT ![c].start = StartClass(c)]
   /\ IF x.mid # "" /\ x.mid \notin co.mem
      THEN /\ cl' = [cl EXCEPT ![c] = AfterJoinSyncError(x, "unknown")]
           /\ Emitting(<<JoinReqEv(c), JoinErrEv(c, "unknown")>>)
@@ -187,7 +196,7 @@ JoinGenuine(c) ==
                                     !.num = [y \in DOMAIN g0.num \cup {m} |-> IF y = m THEN n ELSE g0.num[y]]]
                     ELSE g0 IN
           /\ co' = [g1 EXCEPT !.joined = @ \cup {m}, !.gs = "Preparing"]
-          /\ cl' = [cl EXCEPT ![c].pc = "joinwait", ![c].wmid = m]
+          /\ cl' = [cl EXCEPT ![c].pc = "joinwait", ![c].wmid = m, ![c].j1 = TRUE]
           /\ Emitting(<<JoinReqEv(c)>>)
   /\ UNCHANGED <<cfg, fb, tb>>
 
@@ -272,7 +281,7 @@ MsgsClosed(x) == x.ctx \/ x.closed # "no"
 ClaimBegin(c, p) ==
   LET x == cl[c] IN
   /\ x.pc = "run" /\ x.cst[p] = "pending"
-  /\ IF MsgsClosed(x) /\ Bug # "no_quick_exit"
+  /\ IF MsgsClosed(x)
      THEN /\ cl' = [cl EXCEPT ![c].cst[p] = "skip", ![c].ctx = TRUE]
           /\ UNCHANGED obs
      ELSE LET init == StartOffset(x, p) IN
@@ -285,12 +294,15 @@ AtPoint(x, p) == x.got[p] >= x.h.n \/ x.nxt[p] >= LogLen
 Deliver(c, p) ==
   LET x == cl[c]
       o == x.nxt[p]
-      marks == x.got[p] < x.h.mark IN
+      marks == x.got[p] < x.h.mark
+      \* MarkOffset only raises the partition offset manager's offset (which starts at the FETCHED committed
+      \* offset, even when that one is out of range and the claim fell back to the initial position)
+      eff == marks /\ o + 1 > x.mk[p] IN
   /\ x.pc = "run" /\ x.cst[p] = "run" /\ o < LogLen /\ ~MsgsClosed(x)
   /\ x.h.mode = "drain" \/ ~AtPoint(x, p)
   /\ cl' = [cl EXCEPT ![c].nxt[p] = o + 1, ![c].got[p] = @ + 1,
-                      ![c].mk[p] = IF marks THEN o + 1 ELSE @,
-                      ![c].dirty = IF marks THEN @ \cup {p} ELSE @]
+                      ![c].mk[p] = IF eff THEN o + 1 ELSE @,
+                      ![c].dirty = IF eff THEN @ \cup {p} ELSE @]
   /\ co' = [co EXCEPT !.hi[p] = IF o + 1 > @ THEN o + 1 ELSE @]
   /\ Emitting(<<[ev |-> "msg", c |-> c, p |-> p, off |-> o]>>
               \o (IF marks THEN <<[ev |-> "mark", c |-> c, p |-> p, off |-> o + 1]>> ELSE <<>>))
@@ -482,6 +494,9 @@ Spec == Init /\ [][Next]_vars
 -----------------------------------------------------------------------------
 (* properties *)
 NoViolation == obs.bad = {}
+\* with a committed offset that is out of range the code is known to lose marks (finding F-C07-stale-commit-blocks-marks):
+\* every other clause still holds
+OnlyKnownViolation == obs.bad \subseteq {"final_commit_after_cleanup"}
 
 \* pc-based forms of the life-cycle clauses
 CleanupAfterClaims ==
@@ -515,6 +530,7 @@ GenView == <<cfg, [co EXCEPT !.hi = 0], cl, fb, tb, script>>
 H(m, n, k) == [mode |-> m, n |-> n, mark |-> k]
 HandlersA == {H("early", 1, 1), H("drain", 1, 2), H("ctxwait", 0, 0)}
 HandlersB == {H("early", 0, 0), H("early", 1, 0), H("early", 2, 2), H("drain", 0, 2), H("drain", 2, 1), H("ctxwait", 1, 1)}
+HandlersC == {H("early", 1, 1), H("drain", 0, 2), H("drain", 1, 1), H("ctxwait", 1, 1)}
 HandlersOne == {H("drain", 1, 2)}
 HandlersEarly == {H("early", 1, 1)}
 HandlersTwo == {H("drain", 1, 2), H("early", 1, 1)}
@@ -529,5 +545,8 @@ InitNewest == {-1}
 InitBoth == {-2, -1}
 CC1 == {<<-1>>, <<1>>, <<9>>}
 CC2 == {<<-1, 1>>}
+CC3 == {<<-1, 1, 9>>, <<0, 3, -1>>}
+CC2in == {<<-1, 1>>, <<2, 0>>, <<0, -1>>}
+CC2oor == {<<9, 1>>, <<-1, 9>>}
 CC2all == {<<-1, 1>>, <<2, 9>>, <<0, -1>>}
 =============================================================================
